@@ -156,3 +156,32 @@ func verif_C04_pool_sizes() {
 	verifAssert(p.ErrorLayer() == nil, "payload decodes")
 	verifReached("pool-sizes")
 }
+
+// C01 (rendering): String()/Dump() of every layer of a decoded packet
+func c01Render(first gopacket.LayerType, n int) {
+	in := verifBytes("in", n)
+	ln := verifInt("n", 0, n)
+	p := gopacket.NewPacket(in[:ln], first, gopacket.Default)
+	for _, l := range p.Layers() {
+		if _, isFail := l.(*gopacket.DecodeFailure); isFail {
+			continue // its text is the error string; nothing layer-specific to render
+		}
+		verifRender(l)
+	}
+	verifReached("render")
+}
+
+// the same for a TCP header whose first option is a Multipath TCP option
+func verif_C01_render_TCP_mptcp() {
+	in := verifBytes("in", 32)
+	verifAssume(in[12]>>4 == 8) // 32-byte header: 12 option bytes
+	verifAssume(in[20] == 30)   // option kind: Multipath TCP
+	p := gopacket.NewPacket(in, LayerTypeTCP, gopacket.Default)
+	for _, l := range p.Layers() {
+		if _, isFail := l.(*gopacket.DecodeFailure); isFail {
+			continue
+		}
+		verifRender(l)
+	}
+	verifReached("render")
+}
